@@ -87,7 +87,7 @@ def make_step(term):
 def units(tier, seed):
     us = []
     fam = G.general_family(tier)
-    sel = [s for s in fam if s["name"].split(":")[0] in ("S1", "S2", "S7", "S8", "S9", "S11", "S12", "S15", "S17")]
+    sel = [s for s in fam if s["name"].split(":")[0] in ("S1", "S2", "S5", "S7", "S8", "S9", "S11", "S12", "S14", "S15", "S17")]
     sel += [s for s in fam if s["name"].startswith(("F1:", "G1:"))]
     if tier != "quick":
         sel = fam
